@@ -923,7 +923,25 @@ def element_model(trk, cname):
 
 
 class _ElemInterp(_Interp):
-    """_Interp over representative schedule elements: iterating a parallel element yields its sub-tasks (Parallel.__iter__)"""
+    """_Interp over representative schedule elements: iterating a parallel element yields its sub-tasks (Parallel.__iter__); reading an attribute that is a @property of the
+    element's class runs the property (methods(element, name) -> (module, class, function) or None)"""
+
+    def __init__(self, repo, special=None, methods=None, fuel=20000):
+        super().__init__(repo, special, fuel)
+        self.methods = methods
+
+    def val(self, e, env):
+        if isinstance(e, ast.Attribute) and self.methods is not None:
+            self._tick()
+            v = self.val(e.value, env)
+            if isinstance(v, minieval.Record) and e.attr in v.fields:
+                return v.fields[e.attr]
+            if isinstance(v, _Elem) and v.kind in ("leaf", "parallel"):
+                m_ = self.methods(v, e.attr)
+                if m_ is not None and m_[2] is not None and any(dotted(d_) == "property" for d_ in m_[2].decorator_list):
+                    return self.invoke(m_[2], None, self.frame(m_[0], m_[1], v), True, argv={})
+            raise minieval.CannotEval(f"attribute {short(e, 60)}")
+        return super().val(e, env)
 
     def iterable(self, v, node):
         if isinstance(v, _Elem):
@@ -943,10 +961,13 @@ def element_special(answer, methods=None):
     (methods(element, name) -> (module, class, function) or None)."""
     def ask(a, b):
         if isinstance(a, _Elem) and isinstance(b, _Elem):
-            if a.kind in ("leaf", "parallel") and b.kind == "filter":
-                return bool(answer(a, b))
-            if a.kind == "filter" and b.kind == "leaf":
-                return bool(answer(b, a))
+            try:
+                if a.kind in ("leaf", "parallel") and b.kind == "filter":
+                    return bool(answer(a, b))
+                if a.kind == "filter" and b.kind == "leaf":
+                    return bool(answer(b, a))
+            except (KeyError, IndexError):
+                raise _CannotRun("matches() is asked about an object whose answer is not fixed by the rule")
             if a.kind == "filter" and b.kind == "parallel":
                 raise _CannotRun("a filter is asked about a parallel element directly (filters read the fields of a leaf)")
         return None
@@ -1029,8 +1050,11 @@ def run(chk):
     chk.use(ldr, trk, drv, _S)
     chk.explanation = (
         "Decides the filter as a finite decision function: the match routine (found by role: the method of the processor that asks <element>.matches(<filter>) for the hook; "
-        "helpers extracted from it are read with it) evaluated over {exclude} x {parallel} x {vectors of per-filter match results}, the meaning of the mode attribute being derived "
-        "from what the constructor stores; the constructor, the spec parser, the three filter classes, Task.__init__ (tags), Task.matches and remove_task are INTERPRETED on "
+        "helpers extracted from it are read with it) evaluated over {exclude} x {parallel} x {vectors of per-filter match results} - INTERPRETED on a representative leaf / parallel "
+        "element (built by interpreting Task.__init__ / Parallel.__init__) with one probe filter per vector entry and self as the constructor leaves it for the mode (read as a "
+        "symbolic scan over the filters where the interpreter cannot run it), the filters / mode attributes being derived from what the match routine reads and the constructor "
+        "stores; Parallel.matches likewise on leaves with fixed answers; conditions on a schedule element (emptied / parallel) are read from their spelling or decided on values "
+        "(parallel element with 0 / 1 / 2 sub-tasks, client count derived / explicit; leaf); the constructor, the spec parser, the three filter classes, Task.__init__ (tags), Task.matches and remove_task are INTERPRETED on "
         "representative values (extracted statements and expressions only, helpers of the same class / module followed, nothing of the repository is executed): option lists -> "
         "filters built and mode set, filter(v).matches(task) over a grid of tasks, list of three elements -> list after remove_task; the hook is analysed with the helpers "
         "extracted from it expanded in place: every site that can shrink a parallel element (remove_task or a filtering store) is followed by an emptiness test whose empty edge "
@@ -1197,17 +1221,50 @@ def run(chk):
                          base, vec)
 
     # representative schedule elements: which attributes a leaf / a parallel element has and which of them the constructors fix (Task.__init__ / Parallel.__init__ in track.py)
-    def representative(kind, **extra):
+    def representative(kind, sub=(), clients=_NOHOOK, **extra):
+        """an instance of the element class as a VALUE: the attributes its constructor stores, the constructor INTERPRETED on representative arguments (a leaf: a name and an opaque
+        operation, every other parameter at its default; a parallel element: the given sub-tasks and, if given, the explicit client count); where the constructor is not
+        interpretable, only the literals it stores"""
         cname = next(c_ for c_, k_ in ELEMENT_CLASSES.items() if k_ == kind)
         attrs, consts, itf = element_model(trk, cname)
-        return _Elem(kind, attrs, itf, **consts, **extra)
+        e = _Elem(kind, attrs, itf, **extra)
+        c = trk.cls(cname)
+        ini = trk.methods(c).get("__init__")
+        subs = list(sub)
+        try:
+            if ini is None or len(params_of(ini)) < 2:
+                raise _CannotRun("no constructor")
+            ps = params_of(ini)[1:]
+            if kind == "parallel":
+                argv = {ps[0]: subs}
+                if clients is not _NOHOOK:
+                    if "clients" not in ps:
+                        raise _CannotRun("no explicit client count")
+                    argv["clients"] = clients
+            else:
+                argv = {ps[0]: f"t{extra.get('idx', '')}"}
+                if len(ps) > 1:
+                    argv[ps[1]] = minieval.Record(name="op", type="bulk")
+            it = _Interp(repo)
+            it.invoke(ini, None, it.frame(trk, c, e), True, argv=argv)
+            if kind == "parallel":
+                held = [a_ for a_, v_ in e.fields.items() if v_ is subs]
+                if len(held) != 1 or (itf is not None and held[0] != itf):
+                    raise _CannotRun("the attribute holding the sub-tasks is not recognised")
+                e.iter_field = held[0]  # what Parallel.__iter__ iterates, or (without __iter__) the attribute the constructor stores the sub-tasks in
+        except (_CannotRun, minieval.CannotEval, _Raised):
+            if clients is not _NOHOOK:
+                raise _CannotRun(f"{cname}.__init__ is not interpretable with an explicit client count")
+            e.fields = dict(extra, **consts)
+            if kind == "parallel":
+                if not ("tasks" in attrs or itf):
+                    raise _CannotRun("Parallel keeps its sub-tasks in an attribute that is not recognised")
+                e.fields[itf or "tasks"] = subs
+                e.iter_field = itf
+        return e
 
-    def parallel_with(n_leaves):
-        par = representative("parallel")
-        if not ("tasks" in par.attrs or par.iter_field):
-            raise _CannotRun("Parallel keeps its sub-tasks in an attribute that is not recognised")
-        par.fields[par.iter_field or "tasks"] = [representative("leaf") for _ in range(n_leaves)]
-        return par
+    def parallel_with(n_leaves, clients=_NOHOOK):
+        return representative("parallel", sub=[representative("leaf") for _ in range(n_leaves)], clients=clients)
 
     def elem_methods(e_, nm):
         cname = next(c_ for c_, k_ in ELEMENT_CLASSES.items() if k_ == e_.kind)
@@ -1216,12 +1273,19 @@ def run(chk):
     def mentions_match(e):
         return any(isinstance(x, ast.Call) and helper_of(x) is not None and any(helper_of(x) is g for g in fo_slice) for x in ast.walk(e))
 
+    def value_defs(f):
+        """single-assignment locals of f whose definition IS their value wherever they are read: not containers that are filled / changed in place afterwards"""
+        changed = {x.func.value.id for x in ast.walk(f) if isinstance(x, ast.Call) and isinstance(x.func, ast.Attribute) and isinstance(x.func.value, ast.Name)
+                   and x.func.attr in ("append", "extend", "insert", "remove", "pop", "clear", "add", "discard", "update", "sort", "reverse", "setdefault", "popitem")}
+        changed |= {x.value.id for x in ast.walk(f) if isinstance(x, ast.Subscript) and isinstance(x.ctx, (ast.Store, ast.Del)) and isinstance(x.value, ast.Name)}
+        return {k_: v_ for k_, v_ in local_defs(f).items() if k_ not in changed}
+
     def truth_on(test, binds, me=None):
         """truth of an extracted condition with some names bound to representative values (None if it is not evaluable on them)"""
         def no_answer(e_, f_):
             raise _CannotRun("the condition asks the filters")
 
-        it = _ElemInterp(repo, element_special(no_answer, elem_methods))
+        it = _ElemInterp(repo, element_special(no_answer, elem_methods), elem_methods)
         fr = it.frame(ldr, P, me if me is not None else minieval.Record())
         fr.update(binds)
         try:
@@ -1233,7 +1297,7 @@ def run(chk):
 
     def elem_test_kind(a, obj, defs=None):
         """what an atomic condition says about the schedule element `obj`: 'empty' / 'nonempty' (true exactly for a parallel element without / with sub-tasks), 'parallel' / 'leaf'
-        (true exactly for that class of element), None otherwise. Read from the spelling where it is one of the usual ones, otherwise decided on VALUES: the condition - locals in
+        (true exactly for that class of element), 'other' (evaluable, none of these), None (not evaluable). Read from the spelling where it is one of the usual ones, otherwise decided on VALUES: the condition - locals in
         `defs` replaced by their definitions - is evaluated for a parallel element with 0 / 1 / 2 sub-tasks and for a leaf."""
         k = emptiness_test(a, obj)
         if k:
@@ -1248,18 +1312,23 @@ def run(chk):
         res = None
         if obj.isidentifier() and any(isinstance(x, ast.Name) and x.id == obj for x in ast.walk(a2)) and not mentions_match(a2):
             try:
-                on_par = [truth_on(a2, {obj: parallel_with(n_)}) for n_ in (0, 1, 2)]
+                try:
+                    on_par = [[truth_on(a2, {obj: parallel_with(n_, c_)}) for n_ in (0, 1, 2)] for c_ in (_NOHOOK, 3)]  # client count derived from the sub-tasks / given explicitly
+                except _CannotRun:
+                    on_par = [[truth_on(a2, {obj: parallel_with(n_)}) for n_ in (0, 1, 2)]]
                 on_leaf = truth_on(a2, {obj: representative("leaf")})
             except _CannotRun:
-                on_par, on_leaf = [None], None
-            if on_par == [True, False, False]:
+                on_par, on_leaf = [[None, None, None]], None  # no representative parallel element can be built: nothing is decided by value
+            if all(r_ == [True, False, False] for r_ in on_par):
                 res = "empty"
-            elif on_par == [False, True, True]:
+            elif all(r_ == [False, True, True] for r_ in on_par):
                 res = "nonempty"
-            elif on_par == [True, True, True] and on_leaf is False:
+            elif all(r_ == [True, True, True] for r_ in on_par) and on_leaf is False:
                 res = "parallel"
-            elif on_par == [False, False, False] and on_leaf is True:
+            elif all(r_ == [False, False, False] for r_ in on_par) and on_leaf is True:
                 res = "leaf"
+            elif all(v_ is not None for r_ in on_par for v_ in r_):
+                res = "other"  # a condition on the element that is evaluable on every representative and is neither of the above
         _kinds[key] = res
         return res
 
@@ -1268,13 +1337,10 @@ def run(chk):
         filter per entry of vec in the filters attribute, the element a representative leaf / parallel element whose `.matches(<probe i>)` answers vec[i]"""
         probes = [_Elem("filter", idx=i) for i in range(len(vec))]
         if env["parallel"]:
-            par = representative("parallel")
-            if "tasks" in par.attrs or par.iter_field:
-                par.fields[par.iter_field or "tasks"] = [representative("leaf")]  # its only leaf: matched by exactly the filters the element is matched by
-            elem = par
+            elem = parallel_with(1)  # its only leaf: matched by exactly the filters the element is matched by
         else:
             elem = representative("leaf")
-        it = _ElemInterp(repo, element_special(lambda e_, f_: vec[f_.fields["idx"]]))
+        it = _ElemInterp(repo, element_special(lambda e_, f_: vec[f_.fields["idx"]], elem_methods), elem_methods)
         me = minieval.Record(**it.class_consts(ldr, P))
         st = states.get((not env["exclude"], env["exclude"]))  # only the include list / only the exclude list given
         if run_err is None and st is not None and st[0] != "raise" and mattr in st[2]:
@@ -1426,12 +1492,8 @@ def run(chk):
     def parallel_matches(lv):
         """truth of Parallel.matches(<filter>) for leaves whose own matches(<filter>) answer lv: interpreted on values; read as a scan over the leaves otherwise"""
         try:
-            leaves = [representative("leaf", idx=i) for i in range(len(lv))]
-            me = representative("parallel")
-            if not ("tasks" in me.attrs or me.iter_field):
-                raise _CannotRun("Parallel keeps its sub-tasks in an attribute that is not recognised")
-            me.fields[me.iter_field or "tasks"] = leaves
-            it = _ElemInterp(repo, element_special(lambda e_, f_: lv[e_.fields["idx"]]))
+            me = representative("parallel", sub=[representative("leaf", idx=i) for i in range(len(lv))])
+            it = _ElemInterp(repo, element_special(lambda e_, f_: lv[e_.fields["idx"]], elem_methods), elem_methods)
             return bool(it.invoke(pmt, None, it.frame(trk, PA, me), True, argv={fparam: _Elem("filter")}))
         except _Raised as e:
             raise Unsupported(f"raises {e.text} for leaf match results {lv}")
@@ -1590,7 +1652,7 @@ def run(chk):
         head = gfn.node_of(OL)
         # locals that are computed AFTER the shrink (single assignment inside the loop, the shrink site not reachable from it within the same iteration): a test on such a local
         # is a test on the element as the shrink left it (`remaining = len(task.tasks)` / `emptied = isinstance(..) and not task.tasks`); a local computed before is stale
-        all_defs = local_defs(fn)
+        all_defs = value_defs(fn)
         fresh_defs = {}
         for nm_, val_ in all_defs.items():
             st_ = source.enclosing_stmt(val_)
@@ -1610,7 +1672,9 @@ def run(chk):
                         hit = hit or ("empty" in kinds and all(k in ("empty", "parallel") for k in kinds))
                         # a condition on the element itself (not on what the filters say) that is neither an emptiness nor a class test: possibly an emptiness test in a
                         # spelling that is not read - the verdict below is then `not recognised`, not `no test`
-                        strange += [a for a, k in zip(fs, kinds) if k is None and not mentions_match(source.inline_node(a, all_defs))
+                        # (a test that WOULD be one on a local computed before the shrink is stale, not unread: it does not count as a test and the rule is falsified)
+                        # (an alternative that HAS a recognised emptiness test plus anything else is a located test with a further condition: falsified below, as before)
+                        strange += [a for a, k in zip(fs, kinds) if "empty" not in kinds and k is None and elem_test_kind(a, obj, all_defs) is None and not mentions_match(source.inline_node(a, all_defs))
                                     and any(isinstance(x, ast.Name) and x.id == obj for x in ast.walk(source.inline_node(a, all_defs)))]
                     if hit:
                         tests.append(n)
@@ -1619,6 +1683,43 @@ def run(chk):
         tn = [gfn.node_of(t) for t in tests]
         # every path from the shrink to the next outer iteration passes the emptiness test
         ok = bool(tn) and head.id not in gfn.reachable([gfn.nodes[y] for y, lab in gfn.succ[cn.id] if gfn.normal_edge(cn.id, y, lab)], avoid=tn, edge_ok=gfn.normal_edge)
+        # ... or the emptied elements are removed in a pass of its own AFTER the loop: `for v in [w for w in <same schedule> if <emptied w>]: <remove v>` (the comprehension also
+        # through a local), or a further loop over (a copy of) the same schedule with such an `if`; every path from the shrink to the next challenge / the end passes it
+        def hit_for(cond, var):
+            return any("empty" in ks and all(k in ("empty", "parallel") for k in ks) for fs in (dnf(cond) or []) for ks in [[elem_test_kind(a, var, all_defs) for a in fs]])
+
+        def removes(loop):
+            return any(isinstance(x, ast.Call) and last_attr(x.func) in ("remove_task", "remove") and len(x.args) == 1 and u(x.args[0]) == loop.target.id for s_ in loop.body for x in ast.walk(s_))
+
+        sweeps = []
+        if not ok:
+            for n in ast.walk(fn):
+                if not (isinstance(n, ast.For) and isinstance(n.target, ast.Name) and n is not OL and removes(n)) or any(a_ is OL for a_ in source.ancestors(n)):
+                    continue
+                it_ = n.iter
+                while isinstance(it_, ast.Call) and dotted(it_.func) in ("list", "tuple") and len(it_.args) == 1:
+                    it_ = it_.args[0]
+                if isinstance(it_, ast.Name) and it_.id in all_defs:
+                    it_ = all_defs[it_.id]
+                if isinstance(it_, (ast.ListComp, ast.GeneratorExp)) and len(it_.generators) == 1 and isinstance(it_.generators[0].target, ast.Name) and isinstance(it_.elt, ast.Name) \
+                        and it_.elt.id == it_.generators[0].target.id and u(strip_sel(it_.generators[0].iter)) == u(strip_sel(OL.iter)) and it_.generators[0].ifs:
+                    g_ = it_.generators[0]
+                    if hit_for(ast.BoolOp(op=ast.And(), values=list(g_.ifs)) if len(g_.ifs) != 1 else g_.ifs[0], g_.target.id):
+                        sweeps.append(n)
+                elif u(strip_sel(it_)) == u(strip_sel(OL.iter)):
+                    for i_ in [x for x in ast.walk(n) if isinstance(x, ast.If)]:
+                        for arm, cond in ((i_.body, i_.test), (i_.orelse, negate(i_.test))):
+                            if arm and hit_for(cond, n.target.id) and any(isinstance(x, ast.Call) and last_attr(x.func) in ("remove_task", "remove") and len(x.args) == 1 and u(x.args[0]) == n.target.id
+                                                                           for s_ in arm for x in ast.walk(s_)):
+                                sweeps.append(n)
+            if sweeps:
+                r_ = gfn.reachable([gfn.nodes[y] for y, lab in gfn.succ[cn.id] if gfn.normal_edge(cn.id, y, lab)], avoid=[gfn.node_of(w) for w in sweeps], edge_ok=gfn.normal_edge)
+                outer_heads = [gfn.node_of(a_) for a_ in source.ancestors(OL) if isinstance(a_, (ast.For, ast.While))]
+                if gfn.exit.id not in r_ and not any(h_.id in r_ for h_ in outer_heads):
+                    chk.ob("O11.2", f"{source.qualname(c)}: emptiness test after shrinking {obj}", True, c, f"{len(sweeps)} pass(es) after the loop remove the emptied parallel elements",
+                           key=f"{_L}:{source.qualname(c)}:empty-check-after-shrink")
+                    chk.ob("O11.2", "collected elements are removed from the challenge", True, sweeps[0], "the emptied elements are removed in a pass of their own")
+                    continue
         if not tests and any(fs_[1] == "schedule" and source.enclosing_func(n) is fn for n, fs_ in fstores):
             chk.unknown("O11.2", f"{source.qualname(c)}: the schedule is rebuilt by a filtering comprehension - whether it drops the emptied `{obj}` is not read from this shape", c)
             continue
@@ -1649,7 +1750,8 @@ def run(chk):
                 other_use = [x for x in ast.walk(fn) if isinstance(x, ast.Name) and x.id in names_ and isinstance(x.ctx, ast.Load) and not is_logging_stmt(source.enclosing_stmt(x))
                              and not (isinstance(source.parent(x), ast.Attribute) and source.parent(x).attr == "append")
                              and not (isinstance(source.parent(x), ast.Call) and dotted(source.parent(x).func) == "len")
-                             and not (isinstance(source.parent(x), ast.Assign) and source.parent(x).value is x)]
+                             and not (isinstance(source.parent(x), ast.Assign) and source.parent(x).value is x)
+                             and not any(isinstance(n, ast.For) and strip_sel(n.iter) is x for n in ast.walk(fn))]  # a loop over it that does not remove: inspected above
                 if not rm and escapes:
                     chk.unknown("O11.2", f"the collected elements `{lst}` are handed to {short(escapes[0], 50)}: their removal from the challenge is not visible here", escapes[0])
                 elif not rm and other_use:
@@ -1792,13 +1894,23 @@ def run(chk):
                     e = e.func.value
             return False
 
-        jumps = [x for n in chl if isinstance(n, ast.For) for x in ast.walk(n) if isinstance(x, ast.Return) or (isinstance(x, ast.Break) and source.enclosing(x, (ast.For, ast.While)) is n)]
-        part = [n for n in chl if selects(n.iter)]
-        ok = len(chl) == 1 and not jumps and not part
-        chk.ob("O11.3", "every challenge is filtered (the loop over the challenges runs to the end)", ok, jumps[0] if jumps else (part[0].iter if part else oa),
-               "" if ok else ("the loop over the challenges is left early: later challenges keep their unfiltered schedule" if jumps else
-                              (f"only a selection of the challenges is filtered: {short(part[0].iter, 40)}" if part else f"{len(chl)} loops over the challenges")),
-               key=f"{_L}:TaskFilterTrackProcessor.on_after_load_track:all-challenges")
+        # the loops that FILTER (ask the match routine / remove something) - a further pass over the challenges that only counts or logs is none of this rule's business
+        def filtering(n):
+            body_ = n if isinstance(n, ast.For) else source.parent(n)
+            return any(isinstance(x, ast.Call) and (last_attr(x.func) in ("remove_task", "remove") or (helper_of(x) is not None and any(helper_of(x) is g for g in fo_slice + separate)))
+                       for x in ast.walk(body_)) or any(filter_store(x) is not None for x in ast.walk(body_))
+
+        fl_ = [n for n in chl if filtering(n)]
+        if not fl_:
+            chk.unknown("O11.3", f"none of the {len(chl)} iteration(s) over the challenges asks the match routine or removes anything", chl[0] if isinstance(chl[0], ast.For) else oa)
+        else:
+            jumps = [x for n in fl_ if isinstance(n, ast.For) for x in ast.walk(n) if isinstance(x, ast.Return) or (isinstance(x, ast.Break) and source.enclosing(x, (ast.For, ast.While)) is n)]
+            part = [n for n in fl_ if selects(n.iter)]
+            ok = not jumps and not part
+            chk.ob("O11.3", "every challenge is filtered (the loop over the challenges runs to the end)", ok, jumps[0] if jumps else (part[0].iter if part else oa),
+                   "" if ok else ("the loop over the challenges is left early: later challenges keep their unfiltered schedule" if jumps else
+                                  f"only a selection of the challenges is filtered: {short(part[0].iter, 40)}"),
+                   key=f"{_L}:TaskFilterTrackProcessor.on_after_load_track:all-challenges")
     early = [n for n in walk_body(oaX) if isinstance(n, ast.Return) and guards(n)]
 
     def filters_test_kind(f_):
@@ -1811,8 +1923,24 @@ def run(chk):
 
     # an early return is harmless when it is taken only without filters; it is WRONG when it is taken because there are filters; under any other condition (an empty track, a
     # feature switch) it is not decided here
-    wrong_early = [n for n in early if any(filters_test_kind(f_) == "nonempty" for f_ in _pat.fact_nodes(n)) and not any(filters_test_kind(f_) == "empty" for f_ in _pat.fact_nodes(n))]
-    open_early = [n for n in early if not any(filters_test_kind(f_) in ("empty", "nonempty") for f_ in _pat.fact_nodes(n))]
+    tparam = next((p_ for p_ in params_of(oa) if p_ not in ("self", "cls")), "track")
+
+    def early_kind(n):
+        """'harmless' / 'wrong' / 'open' for one early return: every alternative of its condition is looked at on its own"""
+        fs = _pat.fact_nodes(n)
+        alts = dnf(ast.BoolOp(op=ast.And(), values=list(fs)) if len(fs) != 1 else fs[0]) if fs else [[]]
+        res = "harmless"
+        for a in (alts if alts is not None else [[None]]):
+            kinds = [filters_test_kind(f_) if f_ is not None else None for f_ in a]
+            if "empty" in kinds or any(f_ is not None and emptiness_test(f_, f"{tparam}.challenges") == "empty" for f_ in a):
+                continue  # taken without filters, or for a track without challenges: nothing is left unfiltered
+            if "nonempty" in kinds:
+                return "wrong"
+            res = "open"
+        return res
+
+    wrong_early = [n for n in early if early_kind(n) == "wrong"]
+    open_early = [n for n in early if early_kind(n) == "open"]
     for n in open_early:
         chk.unknown("O11.3", f"the hook returns early under `{' and '.join(u(f_) for f_ in _pat.fact_nodes(n))[:80]}`: whether filtering is skipped although there are filters is not decided", n)
     chk.ob("O11.3", "early return only without filters", not wrong_early, wrong_early[0] if wrong_early else (early[0] if early else oa),
@@ -1863,7 +1991,7 @@ def run(chk):
         for f_ in _pat.fact_nodes(node, stop=tl, path_sensitive=True):
             neg = isinstance(f_, ast.UnaryOp) and isinstance(f_.op, ast.Not)
             core = f_.operand if neg else f_
-            kind_ = None if mentions_match(f_) else elem_test_kind(f_, ev_, local_defs(oaX))
+            kind_ = None if mentions_match(f_) else elem_test_kind(f_, ev_, value_defs(oaX))
             if (neg and is_match_call(core, ev_)) or kind_ in ("parallel", "nonempty"):
                 continue
             if (not neg and is_match_call(core, ev_)) or kind_ == "leaf":
@@ -1895,7 +2023,7 @@ def run(chk):
                 chk.unknown("O11.3", f"the condition under which `{lv}` is queued for removal is too large to be split into alternatives", site)
                 continue
             # each alternative of the condition is either the emptiness clean-up (decided by O11.2) or the match routine on that very element and nothing else
-            oa_defs = local_defs(oaX)
+            oa_defs = value_defs(oaX)
             alts = [a for a in alts if not (any(elem_test_kind(f_, lv, oa_defs) == "empty" for f_ in a) and not any(is_match_call(f_, lv) for f_ in a))]
             if not alts:
                 continue
@@ -2457,4 +2585,81 @@ VARIANTS += [
     [V("the options are read through a helper of the processor", "keep", _L, "        include_tasks = cfg.opts(\"track\", \"include.tasks\", mandatory=False)\n        exclude_tasks = cfg.opts(\"track\", \"exclude.tasks\", mandatory=False)\n",
        "        include_tasks = self._task_list(cfg, \"include.tasks\")\n        exclude_tasks = self._task_list(cfg, \"exclude.tasks\")\n"),
      V("(second edit: the helper)", "keep", _L, "    def _filter_out_match(self, task):\n", "    @staticmethod\n    def _task_list(cfg, key):\n        return cfg.opts(\"track\", key, mandatory=False)\n\n    def _filter_out_match(self, task):\n")],
+]
+
+# ---- hardening round 3 (benign/C11-b6 and further refactorings of the same functions): the match routine and Parallel.matches are INTERPRETED on representative elements / probe
+# filters (any shape the value interpreter runs: a result computed once and branched on per mode, map(), comparison with the mode, table dispatch, next()); conditions on a
+# schedule element are classified by VALUE (emptied / parallel) where their spelling is not one of the usual ones - each accepted shape with a defect placed inside it ----------
+_B6 = "        matched = any(task.matches(f) for f in self.filters)\n        if self.exclude:\n            return matched{par}\n        return not matched\n"
+_TBL_FO = "        matched = any(task.matches(f) for f in self.filters)\n        is_parallel = isinstance(task, Parallel)\n        return _FILTER_OUT[(self.exclude, is_parallel, matched)]\n"
+
+
+def _fo_table(last):
+    return ("# (exclude mode, parallel element, some filter matches) -> remove the element\n_FILTER_OUT = {\n    (False, False, False): True,\n    (False, False, True): False,\n"
+            "    (False, True, False): True,\n    (False, True, True): False,\n    (True, False, False): False,\n    (True, False, True): True,\n    (True, True, False): False,\n"
+            f"    (True, True, True): {last},\n}}\n\n\n") + _CLS
+
+
+_PM = "        for task in self.tasks:\n            if task.matches(task_filter):\n                return True\n        return False\n"
+_EM = "                    if isinstance(task, Parallel) and len(task.tasks) == 0:\n                        tasks_to_remove.append(task)\n"
+_RM = ("                    for leaf_task in leafs_to_remove:\n                        self.logger.info(\"Removing sub-task [%s] from challenge [%s] due to task filter.\", leaf_task, challenge)\n"
+       "                        task.remove_task(leaf_task)\n")
+_PRT = "    def remove_task(self, task):\n        self.tasks.remove(task)\n\n    def __iter__(self):"
+_EARLY = "        if not self.filters:\n            return track\n"
+
+
+def _em(cond, pre=""):
+    return pre + "                    if " + cond + ":\n                        tasks_to_remove.append(task)\n"
+
+
+def _passes(sweep_cond, sweep_first=False):
+    top = "            for task in [t for t in challenge.schedule if self._filter_out_match(t)]:\n                challenge.remove_task(task)\n"
+    leaves = ("            for task in challenge.schedule:\n                if isinstance(task, Parallel):\n                    for leaf_task in [leaf for leaf in task if self._filter_out_match(leaf)]:\n"
+              "                        task.remove_task(leaf_task)\n")
+    sweep = f"            for task in [t for t in challenge.schedule if {sweep_cond}]:\n                challenge.remove_task(task)\n"
+    return "        for challenge in track.challenges:\n" + top + (sweep + leaves if sweep_first else leaves + sweep) + "\n        return track\n"
+
+
+VARIANTS += [
+    # the match routine, by value
+    V("b6 shape: `matched` computed once, one branch per mode", "keep", _L, _FO, _B6.format(par=" and not isinstance(task, Parallel)")),
+    V("b6 shape, the special case for parallel elements dropped", "break", _L, _FO, _B6.format(par=""), "O11.1"),
+    V("match routine: map() over the bound method, result compared with the mode", "keep", _L, _FO,
+      "        matched = any(map(task.matches, self.filters))\n        if isinstance(task, Parallel):\n            return not self.exclude and not matched\n        return matched == self.exclude\n"),
+    V("match routine: compared with the mode, no special case for parallel elements", "break", _L, _FO, "        matched = any(map(task.matches, self.filters))\n        return matched == self.exclude\n", "O11.1"),
+    V("match routine: map() over the first filter only", "break", _L, _FO,
+      "        matched = any(map(task.matches, self.filters[:1]))\n        if isinstance(task, Parallel):\n            return not self.exclude and not matched\n        return matched == self.exclude\n", "O11.1"),
+    V("match routine: the parallel test reads the `nested` flag of the element", "keep", _L, _FO,
+      "        matched = any(task.matches(f) for f in self.filters)\n        if not matched:\n            return not self.exclude\n        return self.exclude and not task.nested\n"),
+    V("match routine: `nested` flag read with the wrong polarity", "break", _L, _FO,
+      "        matched = any(task.matches(f) for f in self.filters)\n        if not matched:\n            return not self.exclude\n        return self.exclude and task.nested\n", "O11.1"),
+    [V("match routine as a table over (mode, parallel, matched)", "keep", _L, _FO, _TBL_FO), V("(second edit: the table)", "keep", _L, _CLS, _fo_table("False"))],
+    [V("match routine as a table, entry for (exclude, parallel, matched) wrong", "break", _L, _FO, _TBL_FO, "O11.1"), V("(second edit: the table)", "break", _L, _CLS, _fo_table("True"), "O11.1")],
+    V("match routine: list of the matching filters, logged", "keep", _L, _FO,
+      "        matching = [f for f in self.filters if task.matches(f)]\n        if not matching:\n            return not self.exclude\n"
+      "        self.logger.debug(\"Task [%s] matches filters %s\", task, matching)\n        return self.exclude and not isinstance(task, (Parallel,))\n"),
+    # Parallel.matches, by value
+    V("parallel matches via next() with a default", "keep", _T, _PM, "        return next((True for t in self.tasks if t.matches(task_filter)), False)\n"),
+    V("parallel matches via next(), default True (an emptied element matches everything)", "break", _T, _PM, "        return next((True for t in self.tasks if t.matches(task_filter)), True)\n", "O11.1"),
+    V("parallel matches via map() over the filter's own matches()", "keep", _T, _PM, "        return any(map(task_filter.matches, self.tasks))\n"),
+    V("parallel matches: bool() of the leaves that do NOT match", "break", _T, _PM, "        return bool([t for t in self.tasks if not t.matches(task_filter)])\n", "O11.1"),
+    # emptiness tests, by value
+    V("emptiness as `not len(...)`", "keep", _L, _EM, _em("isinstance(task, Parallel) and not len(task.tasks)")),
+    V("`len(...)` as the emptiness test (true for NON-empty elements)", "break", _L, _EM, _em("isinstance(task, Parallel) and len(task.tasks)"), "O11.2"),
+    V("emptiness on the `nested` flag and the list", "keep", _L, _EM, _em("task.nested and not task.tasks")),
+    V("emptiness computed into a local after the leaves were removed", "keep", _L, _EM, _em("emptied", "                    emptied = isinstance(task, Parallel) and not task.tasks\n")),
+    [V("emptiness computed into a local BEFORE the leaves are removed (stale)", "break", _L, _RM, "                    emptied = isinstance(task, Parallel) and not task.tasks\n" + _RM, "O11.2"),
+     V("(second edit: the test)", "break", _L, _EM, _em("emptied"), "O11.2")],
+    [V("emptiness asked through a new method of Parallel", "keep", _L, _EM, _em("isinstance(task, Parallel) and task.is_empty()")),
+     V("(second edit: the method)", "keep", _T, _PRT, "    def remove_task(self, task):\n        self.tasks.remove(task)\n\n    def is_empty(self):\n        return not self.tasks\n\n    def __iter__(self):")],
+    [V("new method of Parallel answers the opposite", "break", _L, _EM, _em("isinstance(task, Parallel) and task.is_empty()"), "O11.2"),
+     V("(second edit: the method)", "break", _T, _PRT, "    def remove_task(self, task):\n        self.tasks.remove(task)\n\n    def is_empty(self):\n        return bool(self.tasks)\n\n    def __iter__(self):", "O11.2")],
+    V("three passes per challenge: top-level elements, leaves, emptied parallel elements", "keep", _L, _OA, _passes("isinstance(t, Parallel) and not t.tasks")),
+    V("three passes, the last one removes the NON-empty parallel elements", "break", _L, _OA, _passes("isinstance(t, Parallel) and t.tasks"), "O11."),
+    V("three passes, emptied elements swept BEFORE the leaves are removed", "break", _L, _OA, _passes("isinstance(t, Parallel) and not t.tasks", sweep_first=True), "O11.2"),
+    # the hook: additive pass over the challenges, early returns
+    V("a counting pass over the challenges before the filtering loop", "keep", _L, _OA,
+      "        total = 0\n        for challenge in track.challenges:\n            total += len(challenge.schedule)\n        self.logger.info(\"Filtering %d schedule elements.\", total)\n" + _OA),
+    V("early return also for a track without challenges", "keep", _L, _EARLY, "        if len(self.filters) == 0 or not track.challenges:\n            return track\n"),
+    V("early return when there ARE filters", "break", _L, _EARLY, "        if len(self.filters) >= 1:\n            return track\n", "O11.3"),
 ]
